@@ -235,12 +235,16 @@ func run(c *xs.Ctx, r *xs.Result) {
 		if strings.Contains(only, "d") {
 			partD(c, r, "")
 		}
+		if strings.Contains(only, "e") {
+			partE(c, r, "")
+		}
 		if strings.Contains(only, "a") {
 			runPartA(c, r)
 		}
 		return
 	}
 	partD(c, r, "")
+	partE(c, r, "")
 	runPartB(c, r, "")
 	runPartC(c, r, "")
 	runPartA(c, r)
@@ -496,6 +500,8 @@ func replay(c *xs.Ctx, r *xs.Result) {
 		runPartC(c, r, probe.Case)
 	case "d":
 		partD(c, r, probe.Case)
+	case "e":
+		partE(c, r, probe.Case)
 	default:
 		panic("unknown replay part " + probe.Part)
 	}
@@ -508,20 +514,20 @@ func finish(tier string, m *xs.Result, ev *xs.Evidence) {
 	// process without any recover: the process must die, otherwise the judgement "terminates the node" would be wrong.
 	confirmPanics(tier, m, ev)
 
-	evals := m.Counters["a_letters_sent"] + m.Counters["b_cases"] + m.Counters["c_cases"] + m.Counters["d_cases"]
+	evals := m.Counters["a_letters_sent"] + m.Counters["b_cases"] + m.Counters["c_cases"] + m.Counters["d_cases"] + m.Counters["e_cases"]
 	ev.Coverage["evaluations"] = evals
 	nontrivial := 0
 	var sets []string
 	for name, s := range m.Sets {
 		switch name {
-		case "a_outcomes", "b_outcomes", "c_outcomes", "d_outcomes":
+		case "a_outcomes", "b_outcomes", "c_outcomes", "d_outcomes", "e_outcomes":
 			nontrivial += len(s)
 			sets = append(sets, name)
 		}
 	}
 	sort.Strings(sets)
 	ev.Coverage["distinct_nontrivial"] = nontrivial
-	for _, part := range []string{"a", "b", "c", "d"} {
+	for _, part := range []string{"a", "b", "c", "d", "e"} {
 		sub := map[string]int64{}
 		for k, v := range m.Counters {
 			if strings.HasPrefix(k, part+"_") {
